@@ -202,3 +202,277 @@ class LockAnalysis:
 
     def held(self, func, node):
         return set(self.fl(func).held_at(node)) | set(self.entry_locks().get(func.m, ()))
+
+
+# --------------------------------------------------------------------------
+# lock-order graph with instance roles and pseudo-locks
+
+FACADE_PTRS = ('_impl', '_implDelayed', '_implBase', 'getImpl()', 'getImplDelayed()', 'getImplBase()')
+BLOCKING_EVENT_CALLS = ('event_del', 'event_free', 'event_del_block')
+REGISTER_CALLS = ('event_new', 'evtimer_new', 'event_assign')
+DISPATCH_CALLS = ('event_base_loop', 'event_base_dispatch')
+CLASS_ROLE = {'uscxml::BasicDelayedEventQueue': '_delayQueue', 'uscxml::InterpreterImpl': 'session', 'uscxml::USCXMLInvoker': 'invoker',
+              'uscxml::USCXMLInvoker::ParentQueueImpl': '_parentQueue'}
+
+
+QUEUE_MEMBERS = ('_externalQueue', '_internalQueue', '_delayQueue', '_parentQueue')
+QUEUE_CLASSES = ('uscxml::BasicEventQueue', 'uscxml::EventQueueImpl', 'uscxml::DelayedEventQueueImpl', 'uscxml::EventQueue', 'uscxml::DelayedEventQueue')
+
+
+def class_role(rec):
+    if rec is None:
+        return 'global'
+    if rec in ('uscxml::BasicDelayedEventQueue', 'PausableDelayedEventQueue', 'uscxml::PausableDelayedEventQueue'):
+        return '_delayQueue'
+    if rec == 'uscxml::USCXMLInvoker::ParentQueueImpl':
+        return '_parentQueue'
+    if rec in QUEUE_CLASSES:
+        return '$queue'
+    return CLASS_ROLE.get(rec, rec.split('::')[-1])
+
+
+def norm_role(fb, func, base):
+    """kind of a receiver expression: ('same',) | ('queue', name) | ('prefix', p)"""
+    if base is None or base == 'this':
+        return ('same',)
+    b = base.replace('this->', '')
+    if '_invokedInterpreter' in b:
+        return ('prefix', 'child')
+    for qn in QUEUE_MEMBERS:
+        if b == qn or b.endswith('->' + qn) or b.endswith('.' + qn):
+            return ('queue', qn)
+    return ('same',)
+
+
+def simplify_role(r):
+    parts = r.split('/')
+    out = []
+    for p_ in parts:
+        if out and ((out[-1] == 'child' and p_ == 'parent') or (out[-1] == 'parent' and p_ == 'child')):
+            out.pop()
+            continue
+        out.append(p_)
+    # at most one session prefix is kept
+    pre = [x for x in out[:-1] if x in ('child', 'parent')]
+    return '/'.join(pre[-1:] + out[-1:])
+
+
+def compose(kind, r):
+    if kind[0] == 'same':
+        return r
+    if kind[0] == 'queue':
+        res = kind[1] if r == '$queue' else r
+        if kind[1] == '_parentQueue':
+            # everything reached through the parent queue belongs to the parent session
+            return simplify_role('parent/' + res) if res != '_parentQueue' else res
+        return res
+    if kind[0] == 'prefix':
+        return simplify_role(kind[1] + '/' + r)
+    return r
+
+
+class LockOrder:
+    def __init__(self, fb, callgraph, la):
+        self.fb, self.cg, self.la = fb, callgraph, la
+        self.callbacks_of_class = collections.defaultdict(set)   # class -> {callback Func}
+        self.field_cb = {}                                         # (class, field name) -> callback q
+        self.thread_root_of = {}                                   # (class, thread member) -> root Func
+        self._discover()
+        self.direct = {}       # m -> [(node, (name, role), kind)]
+        for m, f in fb.funcs.items():
+            self.direct[m] = self._direct(f)
+        self.trans = {m: set(x[1] for x in d) for m, d in self.direct.items()}
+        self._closure()
+        self.edges = collections.defaultdict(list)   # (a, b) -> [witness str]
+        self._edges()
+
+    # -- discovery of callback registrations and thread roots
+    def _discover(self):
+        fb = self.fb
+        for f in fb.funcs.values():
+            for n in f.walk():
+                q = n.get('callee', {}).get('q')
+                if q in REGISTER_CALLS:
+                    cb = None
+                    for a in n.get('c', [])[1:]:
+                        for s in sub(a):
+                            if s['k'] == 'DeclRefExpr' and s.get('ref', {}).get('dk') in ('Function', 'CXXMethod') and s['ref'].get('m') in fb.funcs:
+                                cb = fb.funcs[s['ref']['m']]
+                    if cb is None or not f.rec:
+                        continue
+                    self.callbacks_of_class[f.rec].add(cb.m)
+                    # which field receives the event*?   X = event_new(...)  /  T* e = event_new(...); Y.event = e;
+                    p = f.parent(n)
+                    hops = 0
+                    target = None
+                    while p is not None and hops < 4:
+                        if p['k'] == 'BinaryOperator' and p.get('op') == '=':
+                            for s in sub(p['c'][0]):
+                                if s['k'] == 'MemberExpr':
+                                    target = s['ref']['name']
+                                    break
+                            break
+                        if p['k'] == 'DeclStmt':
+                            lid = p['decls'][0]['lid']
+                            for x in f.walk():
+                                if x['k'] == 'BinaryOperator' and x.get('op') == '=' and any(
+                                        s['k'] == 'DeclRefExpr' and s.get('ref', {}).get('lid') == lid for s in sub(x['c'][1])):
+                                    for s in sub(x['c'][0]):
+                                        if s['k'] == 'MemberExpr':
+                                            target = s['ref']['name']
+                                            break
+                            break
+                        p = f.parent(p)
+                        hops += 1
+                    if target:
+                        self.field_cb[(f.rec, target)] = cb.m
+                if q and q.startswith('std::thread::thread') and f.rec:
+                    root = None
+                    for s in sub(n):
+                        if s['k'] == 'DeclRefExpr' and s.get('ref', {}).get('dk') in ('Function', 'CXXMethod') and s['ref'].get('m') in fb.funcs:
+                            root = fb.funcs[s['ref']['m']]
+                    if root is not None:
+                        self.thread_root_of[f.rec] = root.m
+
+    def _role_of_base(self, f, base_node):
+        if base_node is None or base_node['k'] == 'CXXThisExpr':
+            return ('same',)
+        return norm_role(self.fb, f, expr_text(self.fb, base_node))
+
+    def _direct(self, f):
+        out = []
+        fl = None
+        try:
+            fl = self.la.fl(f)
+        except Exception:
+            return out
+        for n, (b, name) in fl.acq_sites:
+            owner = name.rsplit('::', 1)[0]
+            # role of the object owning the mutex: by the class of the function when it is this object (or the
+            # callback's own object in static members), by receiver otherwise
+            role = class_role(f.rec if (b == 'this' or f.d.get('static')) else owner)
+            if role == '$queue' and f.rec in ('uscxml::BasicDelayedEventQueue',):
+                role = '_delayQueue'
+            kind = norm_role(self.fb, f, b) if b != 'this' else ('same',)
+            role = compose(kind, role)
+            out.append((n, (name, role), 'lock'))
+        for n in f.walk():
+            q = n.get('callee', {}).get('q')
+            if q in BLOCKING_EVENT_CALLS and f.rec:
+                field = None
+                for s in sub(n['c'][1]) if len(n.get('c', [])) > 1 else []:
+                    if s['k'] == 'MemberExpr':
+                        field = s['ref']['name']
+                        break
+                cb = self.field_cb.get((f.rec, field))
+                cbs = [cb] if cb else sorted(self.callbacks_of_class.get(f.rec, ()))
+                for c in cbs:
+                    if c == f.m:
+                        continue      # event_free of the running event from inside its own callback does not block
+                    out.append((n, ('CB(%s)' % self.fb.funcs[c].q.split('::')[-1], class_role(f.rec)), 'event_del'))
+            if q and q.endswith('thread::join') and f.rec and f.rec in self.thread_root_of:
+                out.append((n, ('T(%s)' % self.fb.funcs[self.thread_root_of[f.rec]].q.split('uscxml::')[-1], class_role(f.rec)), 'join'))
+        return out
+
+    def _callee_sets(self, f, n, tg):
+        """acquisitions reachable through call n, mapped into f's frame"""
+        kind = ('same',)
+        if n['k'] == 'CXXMemberCallExpr' and n.get('c') and n['c'][0].get('c'):
+            kind = self._role_of_base(f, strip(n['c'][0]['c'][0]))
+        res = set()
+        for t in tg:
+            for (name, role) in self.trans.get(t.m, ()):
+                res.add((name, compose(kind, role)))
+        # dispatch loops run the callbacks registered by the class
+        if n.get('callee', {}).get('q') in DISPATCH_CALLS and f.rec:
+            for c in self.callbacks_of_class.get(f.rec, ()):
+                res.add(('CB(%s)' % self.fb.funcs[c].q.split('::')[-1], class_role(f.rec)))
+                for (name, role) in self.trans.get(c, ()):
+                    res.add((name, role))
+        return res
+
+    def _closure(self):
+        changed = True
+        while changed:
+            changed = False
+            for m, sites in self.cg.sites.items():
+                f = self.fb.funcs[m]
+                for n, tg in sites:
+                    new = self._callee_sets(f, n, tg) - self.trans[m]
+                    if new:
+                        self.trans[m] |= new
+                        changed = True
+
+    def _resolve(self, f, node):
+        name, role = node
+        if role == '$queue':
+            role = 'anyqueue'
+        return '%s@%s' % (name.replace('uscxml::', ''), role)
+
+    def _edges(self):
+        for m, f in self.fb.funcs.items():
+            try:
+                fl = self.la.fl(f)
+            except Exception:
+                continue
+            if not fl.acq_sites and not any(k != 'lock' for _, _, k in self.direct[m]) and m not in self.cg.sites:
+                continue
+            held_names = {}
+
+            def held_at(n):
+                hs = set()
+                for (b, name) in fl.held_at(n):
+                    owner = name.rsplit('::', 1)[0]
+                    role = class_role(f.rec if (b == 'this' or f.d.get('static')) else owner)
+                    if role == '$queue' and f.rec in ('uscxml::BasicDelayedEventQueue',):
+                        role = '_delayQueue'
+                    kind = norm_role(self.fb, f, b) if b != 'this' else ('same',)
+                    hs.add((name, compose(kind, role)))
+                return hs
+            for n, x, kind in self.direct[m]:
+                for h in held_at(n):
+                    a, b = self._resolve(f, h), self._resolve(f, x)
+                    if a != b:
+                        self.edges[(a, b)].append('%s acquires %s at %s holding %s' % (f.q, b, locstr(n), a))
+            for n, tg in self.cg.sites.get(m, ()):
+                hs = held_at(n)
+                if not hs:
+                    continue
+                for x in self._callee_sets(f, n, tg):
+                    for h in hs:
+                        a, b = self._resolve(f, h), self._resolve(f, x)
+                        if a != b:
+                            self.edges[(a, b)].append('%s calls %s at %s holding %s; callee acquires %s' % (f.q, n['callee']['q'], locstr(n), a, b))
+        # pseudo-lock holders: callback f holds CB(f); thread root r holds T(r)
+        for cls, cbs in self.callbacks_of_class.items():
+            for c in cbs:
+                f = self.fb.funcs[c]
+                a = self._resolve(f, ('CB(%s)' % f.q.split('::')[-1], class_role(f.rec)))
+                for x in self.trans.get(c, ()):
+                    b = self._resolve(f, x)
+                    if a != b:
+                        self.edges[(a, b)].append('libevent runs %s (holding %s), which acquires %s' % (f.q, a, b))
+        for cls, r in self.thread_root_of.items():
+            f = self.fb.funcs[r]
+            a = self._resolve(f, ('T(%s)' % f.q.split('uscxml::')[-1], class_role(f.rec)))
+            for x in self.trans.get(r, ()):
+                b = self._resolve(f, x)
+                if a != b:
+                    self.edges[(a, b)].append('thread %s (joined as %s) acquires %s' % (f.q, a, b))
+
+    def cycles(self, maxlen=5):
+        g = collections.defaultdict(set)
+        for (a, b) in self.edges:
+            g[a].add(b)
+        out = set()
+
+        def dfs(start, cur, pathl):
+            for nx in g.get(cur, ()):
+                if nx == start:
+                    i = pathl.index(min(pathl))
+                    out.add(tuple(pathl[i:] + pathl[:i]))
+                elif nx not in pathl and len(pathl) < maxlen and nx > start:
+                    dfs(start, nx, pathl + [nx])
+        for s in sorted(g):
+            dfs(s, s, [s])
+        return sorted(out)
